@@ -30,6 +30,7 @@ func propC17(c *Ctx) {
 	c.ruleLoopFlags("C17-LOOP-FLAG")
 	c.ruleLoopsCoverAll("C17-LOOPS-COVER-ALL")
 	c.ruleDeadErrorStores("C17-DEAD-ERROR-STORE")
+	c.ruleDisallowedCalls("C17-DISALLOWED-CALLS")
 	// a conversion error that is dropped leaves a hole in the document (a user type and every type after it)
 	c.ruleNoDroppedErrorRoots("C17-NO-DROPPED-ERROR", false, append(c.ssaRoots("kit:JApi.ToOpenAPIJson", "kit:JApi.ToOpenAPIJsonIndent"), c.marshalRoots(func(p string) bool { return strings.Contains(p, "/ser/openapi") })...), 2)
 }
